@@ -206,6 +206,9 @@ static inline bool may_accept(const Case &cs)
 // ------------------------------------------------------------------------------------------------ must_accept
 static inline bool node_strict(const Node &x)
 {
+    // the certificate itself must be parseable: v3, supported key, supported signature algorithm (also on a trust anchor), no unknown critical extension
+    if (x.sig == SIG_ALGMISMATCH) return false;
+    if (kkind(x.signKey) != mint::K_ED25519 && !hash_enabled(x.hash)) return false;
     return x.version == 3 && key_enabled(x.key) && date_state(x) == D_IN && x.unk != 2 && !x.serial.empty();
 }
 static inline bool link_strict(const Case &cs, const Node &c, const Node &iss, int below)
